@@ -428,6 +428,7 @@ unsafe fn do_sync(name: &'static str, f: unsafe extern "C" fn(c_int) -> c_int, f
         return f(fd);
     };
     let _ = name;
+    call_gate("fsync", &file);
     if let Gate::Fail(e) = gate() {
         record("fsync", file, 0, 0, vec![], -1, e, true);
         set_errno(e);
